@@ -102,6 +102,34 @@ Theorem history_msgpack_roundtrip : forall fmt pf,
 Proof. exact JsonProofs.history_msgpack_roundtrip. Qed.
 Print Assumptions history_msgpack_roundtrip.
 
+(* values change in place (hset / hdel / aset at any depth, Model run_ops): the encoding of the
+   object after any history of changes is that of the value the changes produce *)
+Theorem mutation_roundtrip : forall fmt pf,
+  (forall sci b, float_finite b = true -> is_json_number (float_token fmt sci b) = true ->
+                 pf (float_token fmt sci b) = b) ->
+  (forall b, float_finite b = true -> has_dot_e (fmt true b) = true) ->
+  forall ops v0 v, run_ops ops v0 = Some v -> wf fmt v = true ->
+  json_parse (to_json fmt v) = Some (tree_of fmt v) /\
+  (data fmt v = true -> no_reserved_keys v = true -> unjson pf (to_json fmt v) = Ok (norm v)).
+Proof. exact JsonProofs.mutation_roundtrip. Qed.
+Print Assumptions mutation_roundtrip.
+
+Theorem hset_keeps_names_distinct : forall fs t x, all_sym fs ->
+  NoDup (ktexts fs) -> NoDup (ktexts (fields_set fs (KSym t) x)).
+Proof. exact JsonProofs.hset_keeps_names_distinct. Qed.
+Print Assumptions hset_keeps_names_distinct.
+
+Theorem hdel_keeps_names_distinct : forall fs k, NoDup (ktexts fs) -> NoDup (ktexts (fields_del fs k)).
+Proof. exact JsonProofs.hdel_keeps_names_distinct. Qed.
+Print Assumptions hdel_keeps_names_distinct.
+
+(* updating the second field keeps the first and the order; a new field goes last *)
+Example ex_run_ops :
+  run_ops [MSet [] (KSym [98]) (VInt 9); MSet [PKey (KSym [97])] (KSym [120]) VNil; MASet [PKey (KSym [99])] 1 (VBool true)]
+          (VHash s_hash [(KSym [97], VHash s_hash []); (KSym [98], VInt 1); (KSym [99], VArr [VNil; VNil])])
+  = Some (VHash s_hash [(KSym [97], VHash s_hash [(KSym [120], VNil)]); (KSym [98], VInt 9); (KSym [99], VArr [VNil; VBool true])]).
+Proof. vm_compute. reflexivity. Qed.
+
 (* ---- 4. the side condition no_reserved_keys cannot be dropped: the full statement
         "forall v, data v -> unjson (to_json v) = Ok (norm v)" is FALSE of the code
         (finding reserved-field-names; witness {Atype:"evil" a:2}, replayed on the real code) ---- *)
